@@ -482,8 +482,8 @@ def check_inside_writes_all(ctx, db):
 
 def run(ctx):
     db = ctx.db
-    ctx.attempt(check_contain, ctx, db)
-    ctx.attempt(check_groups, ctx, db)
+    ctx.memo('contain', {'src/polygon.cpp', 'include/gdstk/vec.hpp'}, check_contain, db)
+    ctx.memo('groups', {'src/polygon.cpp', 'include/gdstk/vec.hpp'}, check_groups, db)
     ctx.attempt(check_measures, ctx, db)
     ctx.attempt(check_translation_invariance, ctx, db)
     ctx.attempt(check_inside_writes_all, ctx, db)
@@ -492,5 +492,5 @@ def run(ctx):
 MANIFEST = dict(
     text='Decides by small-scope interpretation of the source (sa/minieval; no statement shape is matched): Polygon::contain returns the closed region under the non-zero rule for every polygon of up to three (thorough: four) vertices on a 3 x 3 sub-grid and for shapes with holes, double winding, opposite lobes, spikes and notches, against all 25 points of the 5 x 5 grid (vertices, edge interiors, edge levels, inside, outside) - the algorithm only compares coordinates and takes the sign of one determinant, so every ordering of a query against an edge is reached; inside()/all_inside()/any_inside()/contain_all()/contain_any(), on ordered groups of up to two (three) shapes including a segment, a single vertex and an empty polygon and point lists of up to two (three) points with contain() answered exactly per member, return the per-point table / conjunction / disjunction of "some member contains the point" (true / false for no points), so a pre-filter, verdict variable or early exit that changes an answer is reported with the group and points. Structurally: area/signed_area/perimeter return 0 below three vertices before reading vertices, area and signed_area share one shoelace prologue+loop, the repetition factor applies to area and perimeter only and after the whole sum, the perimeter is closed, and all three measures take cross products and lengths of vertex differences only (affine typing: translation invariant by construction). Rounding of the determinant for non-integer coordinates, groups beyond the explored sizes and floating-point sums are not decided.',
     note='Trusted: clang front end, gx, sa rules. Conditions are interpreted only as Boolean combinations of comparisons; anything else raises analysis-broken.',
-    technique='predicate extraction + exhaustive weak-order enumeration (finite abstract domain) + decision-table extraction + clone/shape rules',
+    technique='small-scope interpretation of the source by the checker\'s own AST interpreter (no compiled code is run; bounded explicit-state exploration, closer to bounded model checking than to dataflow): Polygon::contain against the exact closed region on an integer grid that reaches every ordering of a point against an edge, the five group queries against the quantifier over exact membership; clone/shape/affine-typing rules for the measures',
     design='§4 C14')
